@@ -89,6 +89,13 @@ def pureVClock (f : String) (args : List String) : Option String :=
   | "dot.inc" => match args with
     | [a] => (parseDot a).map fun d => showDot d.inc
     | _ => none
+  | "dot.eq" => match args with
+    | [a, b] => match parseDot a, parseDot b with
+      | some x, some y =>
+        let e := decide (x = y)
+        some (showBool e ++ ":" ++ (if e then "true" else "na") ++ ":" ++ showDot x.inc ++ ":" ++ showDot y)
+      | _, _ => none
+    | _ => none
   | _ => none
 
 end Driver
